@@ -19,7 +19,7 @@ func init() { registry["C07"] = propC07 }
 
 func propC07() *Property {
 	return &Property{
-		ID: "C07",
+		ID:          "C07",
 		Explanation: "Dispatcher coverage and crash obligations of the UI only. Decided: (R1) the keys documented in readme.md and in main's help text agree with each other, each is handled by ui.State.Update, and each case calls what the keymap names (j→MoveDown, k→MoveUp, g→MoveToCenter, h→Back, l→Forward, space/c/r/a→switchTo, o/p/b→openExternally; digits, ':', '.', Enter, Esc, Backspace are tested); (R2) every explicit panic in ui, feed, history and ansi that is reachable from Update / SetWidthHeight / Subcommand is discharged: the constants stored to State.mode are handled by view, ReplaceLastLine only receives text that went through ansi.SetLength, feed.Get is called only under Contains of the same offset on the same feed, switchTo only receives values whose dynamic type it handles — and no other panic exists there (a panic guarded by the outcome of parsing typed text has no static discharge); (R3) the results of the unguarded accessor feed.Current() are checked against nil before they are used as a receiver or handed to switchTo; (R4) Update returns before touching any state while the mode is loading. NOT decided: that after an arbitrary key history cursor, page and mode equal the keymap's prediction (refinement over unbounded histories), quiescence of background loads, and History.Current on an empty history (holds by an invariant relating mode and history length that is not structural).",
 		Assumptions: []string{"readme.md 'Keybindings' and main.help() are the documented keymap"},
 		Rules: []Rule{
@@ -94,7 +94,7 @@ func c07R1(c *Ctx) {
 	tested := map[int64]bool{}
 	eachInstr(upd, func(b *ssa.BasicBlock, _ int, in ssa.Instruction) {
 		cmp, ok := in.(*ssa.BinOp)
-		if !ok || cmp.X != ssa.Value(input) {
+		if !ok || unwrapLoad(cmp.X) != ssa.Value(input) {
 			return
 		}
 		k, isC := constInt(cmp.Y)
@@ -221,7 +221,7 @@ func c07R2(c *Ctx) {
 	eachInstr(setLen, func(_ *ssa.BasicBlock, _ int, in ssa.Instruction) {
 		if call, ok := in.(*ssa.Call); ok {
 			if sc := call.Call.StaticCallee(); sc != nil && sc.Name() == "Squash" {
-				if inner, ok := call.Call.Args[0].(*ssa.Call); ok && inner.Call.StaticCallee() != nil && inner.Call.StaticCallee().Name() == "Scrub" && inner.Call.Args[0] == ssa.Value(setLen.Params[0]) {
+				if inner, ok := call.Call.Args[0].(*ssa.Call); ok && inner.Call.StaticCallee() != nil && inner.Call.StaticCallee().Name() == "Scrub" && unwrapLoad(inner.Call.Args[0]) == ssa.Value(setLen.Params[0]) {
 					okSq = true
 				}
 			}
@@ -547,7 +547,7 @@ func c07R3(c *Ctx) {
 			switch x := r.(type) {
 			case ssa.CallInstruction:
 				cc := x.Common()
-				if cc.IsInvoke() && cc.Value == ssa.Value(v) {
+				if cc.IsInvoke() && unwrapLoad(cc.Value) == ssa.Value(v) {
 					risky = "used as the receiver of " + cc.Method.Name()
 				}
 			case *ssa.MakeInterface, *ssa.ChangeInterface:
